@@ -84,7 +84,7 @@ func (c *c14Run) canonical(args ...string) cli.Result {
 }
 
 func isCleanError(r cli.Result) bool {
-	return r.Exit != 0 && !r.TimedOut && len(r.Stdout) == 0 && bytes.Contains(r.Stderr, []byte("error:"))
+	return r.Exit != 0 && !r.TimedOut && len(r.Stdout) == 0 && hasErrorMessage(r.Stderr)
 }
 
 type c14Opt struct {
